@@ -186,7 +186,8 @@ func (em *Emitter) globalConst(name, sort string) string {
 }
 
 func (em *Emitter) typeTag(t types.Type) int {
-	k := types.TypeString(t, nil)
+	// identical types must get one tag however they are spelled (any vs interface{}, aliases)
+	k := strings.ReplaceAll(types.TypeString(types.Unalias(t), nil), "interface{}", "any")
 	if id, ok := em.typeTags[k]; ok {
 		return id
 	}
